@@ -177,6 +177,15 @@ theorem Proc.Fin.withChild {p : Proc} (h : p.Fin) (c : List Nat) : ({ p with chi
   obtain ⟨h1, h2, h3, h4, h5⟩ := h
   exact ⟨h1, h2, h3, h4, h5⟩
 
+theorem Proc.Fin.serve {p : Proc} (h : p.Fin) (r : Req) : (serve p r).1.Fin := by
+  obtain ⟨h1, h2, h3, h4, h5⟩ := h
+  exact ⟨h1, h2, h3, h4, h5⟩
+
+theorem serve_out_ne (p : Proc) (r : Req) : (serve p r).2 ≠ .raised "InternalError" := by
+  unfold serve
+  dsimp only
+  split <;> simp
+
 /-- what one `_send` does, for a helper whose death (if any) is noticed -/
 structure SendSpec (cfg : Cfg) (plan : Plan) (p : Proc) (res : Proc × Out) : Prop where
   fin : res.1.Fin
@@ -187,6 +196,19 @@ structure SendSpec (cfg : Cfg) (plan : Plan) (p : Proc) (res : Proc × Out) : Pr
   crashed_noop : p.crashed = true → res.1 = p
   death_iff : p.crashed = false → (res.1.crashed = true ↔ (plan p.idx p.nreq).isDeath = true)
   nreq_mono : p.nreq ≤ res.1.nreq
+
+/-- the helper served the request (with or without the function raising): nobody crashes -/
+theorem served_spec (cfg : Cfg) (plan : Plan) (p : Proc) (r : Req) (o : Out)
+    (hf : p.Fin) (hs : p.Sound) (hcr' : p.crashed = false)
+    (ho : o ≠ .raised "InternalError") (hnd : (plan p.idx p.nreq).isDeath = false) :
+    SendSpec cfg plan p ((serve p.start r).1, o) := by
+  obtain ⟨ha, hst, hnc, hidx, hnr, hq⟩ := start_alive hf hs hcr'
+  have hfs := hf.start hcr'
+  refine ⟨hfs.serve r, ?_, hidx, hq, ?_, by simp [hcr'], ?_, ?_⟩
+  · intro _ h; simp [serve, Proc.received, ha] at h
+  · simp [serve, Proc.received, hnc, ho]
+  · intro _; simp [serve, Proc.received, hnc, hnd]
+  · simp [serve, Proc.received, hnr]
 
 theorem loadFails_spec (cfg : Cfg) (p : Proc) (cls : String) (_hf : p.Fin) (_hst : p.started = true)
     (hc : caught cls cfg.loadCatch = true) (hcc : CloseContained cfg) :
@@ -208,21 +230,14 @@ theorem send_spec (cfg : Cfg) (plan : Plan) (p : Proc) (r : Req)
     generalize hfa : plan p.idx p.nreq = f at hc
     cases f with
     | none =>
-      simp only []
-      rcases hcs : childServe p.start.child r with ⟨c, ke⟩
-      simp only []
-      refine ⟨(hfs.received r).withChild c, ?_, hidx, hq, ?_, by simp [hcr'], ?_, ?_⟩
-      · intro _ h; simp [Proc.received, ha] at h
-      · simp [Proc.received, hnc]; split <;> simp
-      · intro _; simp [Proc.received, hnc, hfa, Fault.isDeath]
-      · simp [Proc.received, hnr]
-    | raises =>
-      simp only []
-      refine ⟨(hfs.received r).withChild _, ?_, hidx, hq, ?_, by simp [hcr'], ?_, ?_⟩
-      · intro _ h; simp [Proc.received, ha] at h
-      · simp [Proc.received, hnc]
-      · intro _; simp [Proc.received, hnc, hfa, Fault.isDeath]
-      · simp [Proc.received, hnr]
+      exact served_spec cfg plan p r _ hf hs hcr' (serve_out_ne _ _) (by simp [hfa, Fault.isDeath])
+    | raises cls =>
+      have hnd : (plan p.idx p.nreq).isDeath = false := by simp [hfa, Fault.isDeath]
+      cases r with
+      | delete d => exact served_spec cfg plan p _ _ hf hs hcr' (serve_out_ne _ _) hnd
+      | info => exact served_spec cfg plan p _ _ hf hs hcr' (by simp) hnd
+      | sysPath => exact served_spec cfg plan p _ _ hf hs hcr' (by simp) hnd
+      | call c => exact served_spec cfg plan p _ _ hf hs hcr' (by simp) hnd
     | beforeSend =>
       simp only [Contained] at hc
       simp only [hc, if_true, killOut_internal cfg hcc]
@@ -324,6 +339,19 @@ theorem drain_spec (cfg : Cfg) (plan : Plan) (hpc : PlanContained cfg plan) (hcc
         have h2 := cn h
         have h3 : p'.crashed = true := by rw [h2]; exact h
         exact Or.inr (ii.mpr h3)
+    | remote c =>
+      simp only []
+      refine ⟨f1, s1, i1, ?_, ?_, by simp, nm⟩
+      · constructor
+        · intro h
+          exact Or.inl (ii.mpr h)
+        · rintro (h | h)
+          · exact ii.mp h
+          · have := cn h; rw [this]; exact h
+      · intro h
+        have h2 := cn h
+        have h3 : p'.crashed = true := by rw [h2]; exact h
+        exact Or.inr (ii.mpr h3)
 
 /-- what `CompiledSubprocess.run` does -/
 structure RunSpec (p : Proc) (res : Proc × Out) : Prop where
@@ -363,6 +391,17 @@ theorem run_spec (cfg : Cfg) (plan : Plan) (hpc : PlanContained cfg plan) (hcc :
       · rcases co h with h2 | h2
         · simp at h2
         · exact h2
+  | remote c =>
+    simp only []
+    refine ⟨f1, s1, i1, ?_, fun h => ci.mpr (Or.inr h), by simp⟩
+    constructor
+    · intro h; exact ci.mpr (Or.inl h)
+    · intro h
+      rcases ci.mp h with h | h
+      · exact h
+      · rcases co h with h2 | h2
+        · simp at h2
+        · exact h2
 
 
 /-! ### bookkeeping that holds for every plan (also when an exception escapes `_send`) -/
@@ -376,21 +415,27 @@ theorem send_fin (cfg : Cfg) (plan : Plan) (p : Proc) (r : Req) (hf : p.Fin) :
     have hfs := hf.start hcr'
     have hst : p.start.started = true := by unfold Proc.start; split <;> simp_all
     simp only [hcr', Bool.false_eq_true, if_false]
-    split
-    · split
+    generalize (if p.start.alive = true then plan p.start.idx p.start.nreq else Fault.beforeSend) = f
+    cases f with
+    | beforeSend =>
+      simp only []
+      split
       · exact hfs.die.writeFailed.kill cfg hst
       · exact hfs.die.writeFailed
-    · unfold loadFails; split
+    | afterSend =>
+      simp only []; unfold loadFails; split
       · exact ((hfs.received r).die).kill cfg hst
       · exact (hfs.received r).die
-    · unfold loadFails; split
+    | raisesFatal =>
+      simp only []; unfold loadFails; split
       · exact ((hfs.received r).die).kill cfg hst
       · exact (hfs.received r).die
-    · unfold loadFails; split
+    | trunc cls =>
+      simp only []; unfold loadFails; split
       · exact ((hfs.received r).die).kill cfg hst
       · exact (hfs.received r).die
-    · exact (hfs.received r).withChild _
-    · exact (hfs.received r).withChild _
+    | raises cls => cases r <;> exact hfs.serve _
+    | none => exact hfs.serve _
 
 theorem drain_fin (cfg : Cfg) (plan : Plan) :
     ∀ (q : List Nat) (p : Proc), p.Fin → (drain cfg plan p q).1.Fin := by
@@ -406,6 +451,7 @@ theorem drain_fin (cfg : Cfg) (plan : Plan) :
     cases o with
     | ok => exact ih p' this
     | raised c => exact this
+    | remote c => exact this
 
 theorem run_fin (cfg : Cfg) (plan : Plan) (p : Proc) (s : Nat) (hf : p.Fin) :
     (run cfg plan p s).1.Fin := by
@@ -416,6 +462,7 @@ theorem run_fin (cfg : Cfg) (plan : Plan) (p : Proc) (s : Nat) (hf : p.Fin) :
   cases o with
   | ok => exact send_fin cfg plan p' _ this
   | raised c => exact this
+  | remote c => exact this
 
 /-- a crashed helper is never written to again -/
 theorem send_crashed (cfg : Cfg) (plan : Plan) (p : Proc) (r : Req) (h : p.crashed = true) :
@@ -459,12 +506,23 @@ theorem getSub_allFin (cfg : Cfg) (plan : Plan) (e : Env) (he : e.AllFin) :
     cases o with
     | ok => exact ⟨key, rfl⟩
     | raised c => simp only []; split <;> exact ⟨key, rfl⟩
+    | remote c => simp only []; split <;> exact ⟨key, rfl⟩
   unfold getSub
   split
   · split
     · exact fresh
     · exact ⟨he, rfl⟩
   · exact fresh
+
+theorem markUsed_allFin {e : Env} (he : e.AllFin) (s : Nat) : (e.markUsed s).AllFin := he
+
+theorem callRun_allFin (cfg : Cfg) (plan : Plan) (e : Env) (k s : Nat) (he : e.AllFin) :
+    (callRun cfg plan e k s).1.AllFin := by
+  unfold callRun
+  split
+  · exact he
+  · rename_i p hp
+    exact setProc_allFin he (run_fin cfg plan p s (he p (getProc_mem hp)))
 
 theorem step_allFin (cfg : Cfg) (plan : Plan) (e : Env) (op : Op) (he : e.AllFin) :
     (step cfg plan e op).1.AllFin := by
@@ -481,6 +539,7 @@ theorem step_allFin (cfg : Cfg) (plan : Plan) (e : Env) (op : Op) (he : e.AllFin
       · exact this
       · exact this
     | raised c => exact this
+    | remote c => exact this
   | sysPath =>
     unfold step
     have := (getSub_allFin cfg plan e he).1
@@ -499,15 +558,17 @@ theorem step_allFin (cfg : Cfg) (plan : Plan) (e : Env) (op : Op) (he : e.AllFin
         · exact this x (by rw [hp]; exact List.mem_cons_of_mem _ hx)
       · exact this
     | raised c => exact this
+    | remote c => exact this
   | call s =>
     simp only [step]
     split
     · exact he
     · split
-      · exact he
-      · rename_i p hp
-        have hpm : p ∈ e.procs := getProc_mem hp
-        exact setProc_allFin (e := { e with iss := _ }) he (run_fin cfg plan p s (he p hpm))
+      · exact callRun_allFin cfg plan _ _ s (markUsed_allFin he s)
+      · dsimp only
+        split
+        · exact markUsed_allFin (callRun_allFin cfg plan e _ s he) s
+        · exact callRun_allFin cfg plan e _ s he
   | drop s =>
     simp only [step]
     split
@@ -593,6 +654,8 @@ theorem Proc.NoLeak.withChild {p : Proc} (h : p.NoLeak) (c : List Nat) :
 theorem Proc.NoLeak.withQueue {p : Proc} (h : p.NoLeak) (q : List Nat) :
     ({ p with queue := q } : Proc).NoLeak := h
 
+theorem Proc.NoLeak.serve {p : Proc} (h : p.NoLeak) (r : Req) : (serve p r).1.NoLeak := h
+
 theorem send_noLeak (cfg : Cfg) (hg : GoodClose cfg) (plan : Plan) (p : Proc) (r : Req) (hn : p.NoLeak) :
     (send cfg plan p r).1.NoLeak := by
   unfold send
@@ -601,21 +664,27 @@ theorem send_noLeak (cfg : Cfg) (hg : GoodClose cfg) (plan : Plan) (p : Proc) (r
   · have hcr' : p.crashed = false := by simpa using hcr
     have hns := hn.start
     simp only [hcr', Bool.false_eq_true, if_false]
-    split
-    · split
+    generalize (if p.start.alive = true then plan p.start.idx p.start.nreq else Fault.beforeSend) = f
+    cases f with
+    | beforeSend =>
+      simp only []
+      split
       · exact hns.die.writeFailed.kill cfg hg
       · exact hns.die.writeFailed
-    · unfold loadFails; split
+    | afterSend =>
+      simp only []; unfold loadFails; split
       · exact ((hns.received r).die).kill cfg hg
       · exact (hns.received r).die
-    · unfold loadFails; split
+    | raisesFatal =>
+      simp only []; unfold loadFails; split
       · exact ((hns.received r).die).kill cfg hg
       · exact (hns.received r).die
-    · unfold loadFails; split
+    | trunc cls =>
+      simp only []; unfold loadFails; split
       · exact ((hns.received r).die).kill cfg hg
       · exact (hns.received r).die
-    · exact (hns.received r).withChild _
-    · exact (hns.received r).withChild _
+    | raises cls => cases r <;> exact hns.serve _
+    | none => exact hns.serve _
 
 theorem drain_noLeak (cfg : Cfg) (hg : GoodClose cfg) (plan : Plan) :
     ∀ (q : List Nat) (p : Proc), p.NoLeak → (drain cfg plan p q).1.NoLeak := by
@@ -631,6 +700,7 @@ theorem drain_noLeak (cfg : Cfg) (hg : GoodClose cfg) (plan : Plan) :
     cases o with
     | ok => exact ih p' this
     | raised c => exact this
+    | remote c => exact this
 
 theorem run_noLeak (cfg : Cfg) (hg : GoodClose cfg) (plan : Plan) (p : Proc) (s : Nat) (hn : p.NoLeak) :
     (run cfg plan p s).1.NoLeak := by
@@ -641,6 +711,7 @@ theorem run_noLeak (cfg : Cfg) (hg : GoodClose cfg) (plan : Plan) (p : Proc) (s 
   cases o with
   | ok => exact send_noLeak cfg hg plan p' _ this
   | raised c => exact this
+  | remote c => exact this
 
 def Env.AllNoLeak (e : Env) : Prop := ∀ p ∈ e.procs, p.NoLeak
 
@@ -667,12 +738,23 @@ theorem getSub_allNoLeak (cfg : Cfg) (hg : GoodClose cfg) (plan : Plan) (e : Env
     cases o with
     | ok => exact key
     | raised c => simp only []; split <;> exact key
+    | remote c => simp only []; split <;> exact key
   unfold getSub
   split
   · split
     · exact fresh
     · exact he
   · exact fresh
+
+theorem markUsed_allNoLeak {e : Env} (he : e.AllNoLeak) (s : Nat) : (e.markUsed s).AllNoLeak := he
+
+theorem callRun_allNoLeak (cfg : Cfg) (hg : GoodClose cfg) (plan : Plan) (e : Env) (k s : Nat)
+    (he : e.AllNoLeak) : (callRun cfg plan e k s).1.AllNoLeak := by
+  unfold callRun
+  split
+  · exact he
+  · rename_i p hp
+    exact setProc_allNoLeak he (run_noLeak cfg hg plan p s (he p (getProc_mem hp)))
 
 theorem step_allNoLeak (cfg : Cfg) (hg : GoodClose cfg) (plan : Plan) (e : Env) (op : Op)
     (he : e.AllNoLeak) : (step cfg plan e op).1.AllNoLeak := by
@@ -689,6 +771,7 @@ theorem step_allNoLeak (cfg : Cfg) (hg : GoodClose cfg) (plan : Plan) (e : Env) 
       · exact this
       · exact this
     | raised c => exact this
+    | remote c => exact this
   | sysPath =>
     unfold step
     have := getSub_allNoLeak cfg hg plan e he
@@ -707,15 +790,17 @@ theorem step_allNoLeak (cfg : Cfg) (hg : GoodClose cfg) (plan : Plan) (e : Env) 
         · exact this x (by rw [hp]; exact List.mem_cons_of_mem _ hx)
       · exact this
     | raised c => exact this
+    | remote c => exact this
   | call s =>
     simp only [step]
     split
     · exact he
     · split
-      · exact he
-      · rename_i p hp
-        have hpm : p ∈ e.procs := getProc_mem hp
-        exact setProc_allNoLeak (e := { e with iss := _ }) he (run_noLeak cfg hg plan p s (he p hpm))
+      · exact callRun_allNoLeak cfg hg plan _ _ s (markUsed_allNoLeak he s)
+      · dsimp only
+        split
+        · exact markUsed_allNoLeak (callRun_allNoLeak cfg hg plan e _ s he) s
+        · exact callRun_allNoLeak cfg hg plan e _ s he
   | drop s =>
     simp only [step]
     split
